@@ -1077,6 +1077,49 @@ def model_saturating(ex, args, fn):
     raise Unsupported(fn)
 
 
+def model_checked(ex, args, fn):
+    """checked_add/sub/mul/div/rem on unsigned integers -> Option (forks into Some / None)."""
+    a, b = args
+    bits = INT_TYPES[a.ty]
+    lim = sx.const(1 << bits)
+    op = fn.rsplit("checked_", 1)[1]
+    if op == "add":
+        v = sx.add(a.t, b.t); ok = sx.lt(v, lim)
+    elif op == "sub":
+        v = sx.sub(a.t, b.t); ok = sx.ge(a.t, b.t)
+    elif op == "mul":
+        v = sx.mul(a.t, b.t); ok = sx.lt(v, lim)
+    elif op == "div":
+        v = sx.div(a.t, b.t); ok = sx.not_(sx.eq(b.t, sx.const(0)))
+    elif op == "rem":
+        v = sx.rem(a.t, b.t); ok = sx.not_(sx.eq(b.t, sx.const(0)))
+    else:
+        raise Unsupported(fn)
+    res = []
+    if ok is not sx.FALSE:
+        res.append((ok, "ret", Enum("Some", [Int(v, a.ty)]), ""))
+    if ok is not sx.TRUE:
+        res.append((sx.not_(ok), "ret", Enum("None"), ""))
+    return res
+
+
+def model_overflowing(ex, args, fn):
+    a, b = args
+    bits = INT_TYPES[a.ty]
+    lim = sx.const(1 << bits)
+    op = fn.rsplit("overflowing_", 1)[1]
+    if op == "add":
+        v = sx.add(a.t, b.t)
+        return [(sx.TRUE, "ret", Agg("tuple", [Int(sx.mod2(v, bits), a.ty), Bool(sx.ge(v, lim))]), "")]
+    if op == "mul":
+        v = sx.mul(a.t, b.t)
+        return [(sx.TRUE, "ret", Agg("tuple", [Int(sx.mod2(v, bits), a.ty), Bool(sx.ge(v, lim))]), "")]
+    if op == "sub":
+        under = sx.lt(a.t, b.t)
+        return [(sx.TRUE, "ret", Agg("tuple", [Int(sx.ite(under, sx.sub(sx.add(a.t, lim), b.t), sx.sub(a.t, b.t)), a.ty), Bool(under)]), "")]
+    raise Unsupported(fn)
+
+
 def model_abs_diff(ex, args, fn):
     a, b = args
     return [(sx.TRUE, "ret", Int(sx.ite(sx.ge(a.t, b.t), sx.sub(a.t, b.t), sx.sub(b.t, a.t)), a.ty), "")]
@@ -1235,6 +1278,11 @@ MODELS = {
     r"^<u\w+ as Ord>::max$|^(std|core)::cmp::Ord::max$": model_max,
     r"core::num::<impl u\w+>::saturating_(add|sub)$": model_saturating,
     r"core::num::<impl u\w+>::abs_diff$": model_abs_diff,
+    r"core::num::<impl u\w+>::checked_(add|sub|mul|div|rem)$": model_checked,
+    r"core::num::<impl u\w+>::overflowing_(add|sub|mul)$": model_overflowing,
+    r"core::num::<impl u\w+>::div_euclid$": lambda ex, a, fn: [(sx.eq(a[1].t, sx.const(0)), "panic", None, "division by zero"), (sx.not_(sx.eq(a[1].t, sx.const(0))), "ret", Int(sx.div(a[0].t, a[1].t), a[0].ty), "")],
+    r"core::num::<impl u\w+>::rem_euclid$": lambda ex, a, fn: [(sx.eq(a[1].t, sx.const(0)), "panic", None, "division by zero"), (sx.not_(sx.eq(a[1].t, sx.const(0))), "ret", Int(sx.rem(a[0].t, a[1].t), a[0].ty), "")],
+    r"core::num::<impl u\w+>::next_multiple_of$": lambda ex, a, fn: [(sx.eq(a[1].t, sx.const(0)), "panic", None, "division by zero"), (sx.not_(sx.eq(a[1].t, sx.const(0))), "ret", Int(sx.mul(sx.ceil_div(a[0].t, a[1].t), a[1].t), a[0].ty), "")],
     r"^Vec::<.*>::with_capacity$": model_vec_with_capacity,
     r"RangeInclusive::<u\d+>::new$": model_range_inclusive_new,
     r"^<std::ops::Range(Inclusive)?<\w+> as IntoIterator>::into_iter$": model_into_iter,
